@@ -19,8 +19,9 @@ Theorem C11_abort_in_params :
     settle s'' = (if rid r =? r_id (ireq i) then Header else Params i 0 0).
 Proof. exact abort_in_params. Qed.
 
-(* later: a handler read returns ConnectionAborted exactly when the parser stands at an AbortRequest header of
-   this request *)
+(* later: a handler read that returns ConnectionAborted does so because the parser stands at an AbortRequest
+   header of this request — and Request.aborted is then set — or because a flush of parser replies failed with
+   a transport error of that very kind (flag untouched: finding F4, the two are told apart by the flag) *)
 Theorem C11_read_fails_with_aborted :
   forall (maxc : N) (fuel : nat) (dest : option N) (r : rstate) (w : world) (r' : rstate) (w' : world),
   pinv (rsp r) ->
@@ -31,10 +32,7 @@ Theorem C11_read_fails_with_aborted :
   fault_of EK_Aborted (wscript w) /\ raborted r' = raborted r.
 Proof. exact poll_input_aborted. Qed.
 
-(* (added by hand, not in tools/write_props.py) on a transport whose writes do not fail the kind Aborted is reported
-   exactly for the parser's AbortRequest, and Request.aborted is then set; a failing flush whose error has the kind
-   ConnectionAborted (the second disjunct above) leaves the flag alone, so that the connection loop does not take
-   it for a client abort *)
+(* on a transport without write faults: ConnectionAborted exactly for the parser's AbortRequest, flag set *)
 Theorem C11_read_fails_with_aborted_no_fault :
   forall (maxc : N) (fuel : nat) (dest : option N) (r : rstate) (w : world) (r' : rstate) (w' : world),
   pinv (rsp r) ->
@@ -45,7 +43,7 @@ Theorem C11_read_fails_with_aborted_no_fault :
   err_at (abs (rsp r')) EAbortRequest /\ raborted r' = true.
 Proof. exact poll_input_aborted_no_fault. Qed.
 
-(* (added by hand) Request.aborted is set only by a read that returns the parser's AbortRequest ... *)
+(* Request.aborted is set only by a read that returns the parser's AbortRequest *)
 Theorem C11_aborted_flag_source :
   forall (maxc : N) (fuel : nat) (dest : option N) (r : rstate) (w : world) (p : pres (N * bytes + N))
     (r' : rstate) (w' : world),
@@ -53,13 +51,14 @@ Theorem C11_aborted_flag_source :
   bytes_ok (remaining w) ->
   (length (wscript w) + length (remaining w) + 2 <= fuel)%nat ->
   poll_input maxc fuel dest r w = (p, r', w') ->
-  raborted r = false -> raborted r' = true ->
-  p = PReady (inr EK_Aborted) /\ err_at (abs (rsp r')) EAbortRequest.
+  raborted r = false ->
+  raborted r' = true -> p = PReady (inr EK_Aborted) /\ err_at (abs (rsp r')) EAbortRequest.
 Proof. exact poll_input_sets_aborted. Qed.
 
-(* (added by hand) ... and nothing a handler does clears it *)
+(* ... and nothing a handler does clears it *)
 Theorem C11_aborted_flag_sticky :
-  forall (maxc : N) (f : nat) (script : list N) (r : rstate) (w : world) (st : N * N + N) (r' : rstate) (w' : world),
+  forall (maxc : N) (f : nat) (script : list N) (r : rstate) (w : world) (st : N * N + N) 
+    (r' : rstate) (w' : world),
   run_handler maxc f script r w = Ok (st, r') w' -> raborted r = true -> raborted r' = true.
 Proof. exact run_handler_raborted_mono. Qed.
 
